@@ -350,7 +350,7 @@ void buildPool()
     }
     // G2: two unit children, all ordered pairs of a child menu (so both child orders are members)
     {
-        std::vector<const char *> refs = g_thorough ? std::vector<const char *>{"metre", "second", "gram", "litre", "apple", "dimensionless"}
+        std::vector<const char *> refs = g_thorough ? std::vector<const char *>{"metre", "second", "gram", "litre", "apple"}
                                                     : std::vector<const char *>{"metre", "second", "gram", "apple"};
         const std::vector<Attr> &am = g_thorough ? ATTR_SMALL : ATTR_TINY;
         std::vector<Item> menu;
@@ -390,7 +390,7 @@ void buildPool()
     // G4: depth 2: root -> mid -> inner
     {
         const std::vector<Attr> &am = g_thorough ? ATTR_SMALL : ATTR_TINY;
-        for (size_t k = 0; k < inners.size(); ++k) for (auto &a : am) for (auto &b : am) {
+        for (size_t k = 0; k < inners.size(); ++k) for (auto &a : am) for (auto &b : ATTR_TINY) {
             Member m;
             m.kind = "nest2";
             Def d; d.name = "r"; d.items = {{"mid", a}};
@@ -497,7 +497,7 @@ void buildPool()
     // sub-pool: for every distinct reduction class the first K members of each kind-group (deterministic), so that every class
     // and, inside a class, different scales and different constructions are present
     {
-        size_t K = g_thorough ? 4 : 4;
+        size_t K = g_thorough ? 3 : 4;
         std::map<std::string, std::vector<int>> byClass;
         std::map<std::string, std::set<std::string>> seen;
         for (size_t i = 0; i < P.size(); ++i) {
@@ -587,17 +587,16 @@ PairRes judgePair(Ctx &c, size_t ia, size_t ib, const std::string &fam)
             report(c, fam + ":factor:not-ratio-of-si-scales:" + kinds(a, b), d);
         }
     } else c.count("compatible_pairs_outside_si_domain(laws only)");
-    bool wantEq = f == 1.0;
-    if (ie != wantEq) {
-        json d = pairDetail(a, b, ia, ib); d["factor"] = dbl(f); d["equivalent"] = ie;
-        report(c, fam + ":equivalent:disagrees-with-compatible-and-factor-1:" + kinds(a, b), d);
-    }
-    if (dom && want.zero() != ie) {
-        json d = pairDetail(a, b, ia, ib); d["factor"] = dbl(f); d["equivalent"] = ie; d["want"] = want.str();
-        // want.zero(): exactly equal scales, so the factor is 1 up to rounding of the log10 sums; a factor within 1e-12 of 1
-        // that is not bit-exactly 1 gets its own class (floating-point, not algebra)
-        bool rounding = want.zero() && f != 1.0 && relClose(f, 1.0);
-        report(c, fam + (rounding ? ":equivalent:rounding-near-1:" : ":equivalent:disagrees-with-reference:") + kinds(a, b), d);
+    // equivalent <=> compatible and factor 1. "Factor 1" is judged like every other factor: bit-exactly 1 must give true, a factor
+    // further than 1e-12 from 1 must give false; in between (rounding of the log10 sums; the menus have no scale ratio that close
+    // to 1 other than exactly 1) the units are mathematically identical in scale and equivalent must be true.
+    {
+        json d = pairDetail(a, b, ia, ib);
+        char buf[64]; snprintf(buf, sizeof buf, "%.17g", f);
+        d["factor"] = buf; d["equivalent"] = ie; d["want"] = want.str();
+        if (!relClose(f, 1.0)) { if (ie) report(c, fam + ":equivalent:true-with-factor-not-1:" + kinds(a, b), d); }
+        else if (f == 1.0) { if (!ie) report(c, fam + ":equivalent:false-with-factor-exactly-1:" + kinds(a, b), d); }
+        else if (!ie) { c.count("equivalent_false_by_rounding"); report(c, fam + ":equivalent:rounding-near-1:" + kinds(a, b), d); }
     }
     return {ic, f};
 }
